@@ -474,3 +474,58 @@ func verifC05(n Name) (base []byte, parts [][]byte, b2 []byte) {
 //@     invariant 0 <= idx() <= len(r.Values)
 //@     invariant forall j int :: 0 <= j < idx() ==> r.Values[j].Unit != unit
 //@     decreases len(r.Values) - idx()
+
+// ---------------------------------------------------------------------------
+// Files: the list of inputs and their .file labels (C02)
+
+// A command-line argument label=path is split at its first '=' when labels are allowed.
+//@ pure func argLabelled(f *Files, p string) bool = f.AllowLabels && strings.Index(p, "=") >= 0
+//@ pure func argPath(f *Files, p string) string = argLabelled(f, p) ? p[strings.Index(p, "=")+1:] : p
+
+// occ(paths, allow, s, k): how many of the first k arguments are the bare path s.
+// (over the argument list itself, not over f: init writes f while it counts)
+// (0 beyond the list: the input implied by an empty list has index 0 but is no argument)
+//@ rec func occ(paths []string, allow bool, s string, k int) int = (k <= 0 || k > len(paths)) ? 0 : occ(paths, allow, s, k-1) + ((!(allow && strings.Index(paths[k-1], "=") >= 0) && paths[k-1] == s) ? 1 : 0)
+
+//@ pure func mapCount(m map[string]int, s string) int = has(m, s) ? m[s] : 0
+// The input implied by an empty argument list counts as one occurrence of "-".
+//@ pure func impliedStdin(f *Files, s string) int = (f.AllowStdin && len(f.Paths) == 0 && s == "-") ? 1 : 0
+
+// init: one input per argument, in order (standard input when there is none and it
+// is allowed); a labelled argument keeps its label; a bare path that occurs once is
+// its own label, and the k-th of several occurrences (counting from 0) is path#k.
+//@ func (f *Files) init()
+//@   props C02
+//@   opt allocates
+//@   requires f != nil
+//@   modifies f
+//@   ensures f.Paths === old(f.Paths) && f.AllowLabels == old(f.AllowLabels) && f.AllowStdin == old(f.AllowStdin) && f.inputs != nil
+//@   ensures len(f.Paths) == 0 && f.AllowStdin ==> len(f.inputs) == 1 && f.inputs[0].path == "-" && f.inputs[0].label == "-" && f.inputs[0].isStdin && !f.inputs[0].isLabeled
+//@   ensures len(f.Paths) == 0 && !f.AllowStdin ==> len(f.inputs) == 0
+//@   ensures len(f.Paths) > 0 ==> len(f.inputs) == len(f.Paths)
+//@   ensures forall i int :: 0 <= i < len(f.Paths) ==> f.inputs[i].path == argPath(f, f.Paths[i]) && f.inputs[i].isLabeled == argLabelled(f, f.Paths[i]) && (f.inputs[i].isStdin <==> (f.AllowStdin && f.inputs[i].path == "-"))
+//@   ensures forall i int :: 0 <= i < len(f.Paths) && argLabelled(f, f.Paths[i]) ==> f.inputs[i].label == f.Paths[i][:strings.Index(f.Paths[i], "=")]
+//@   ensures forall i int :: 0 <= i < len(f.Paths) && !argLabelled(f, f.Paths[i]) ==> f.inputs[i].label == (occ(f.Paths, f.AllowLabels, f.Paths[i], len(f.Paths)) == 1 ? f.Paths[i] : sprintf("%s#%d", iface(f.Paths[i]), iface(occ(f.Paths, f.AllowLabels, f.Paths[i], i))))
+//@   loop 1:
+//@     invariant 0 <= idx() <= len(f.Paths) && f.Paths === old(f.Paths) && f.AllowLabels == old(f.AllowLabels) && f.AllowStdin == old(f.AllowStdin) && f.inputs != nil && fresh(f.inputs) && pathCount != nil && fresh(pathCount) && unchanged(f)
+//@     invariant len(f.inputs) == idx() + ((f.AllowStdin && len(f.Paths) == 0) ? 1 : 0)
+//@     invariant len(f.Paths) == 0 && f.AllowStdin ==> f.inputs[0].path == "-" && f.inputs[0].label == "-" && f.inputs[0].isStdin && !f.inputs[0].isLabeled
+//@     invariant forall i int :: 0 <= i < idx() ==> f.inputs[i].path == argPath(f, f.Paths[i]) && f.inputs[i].isLabeled == argLabelled(f, f.Paths[i]) && (f.inputs[i].isStdin <==> (f.AllowStdin && f.inputs[i].path == "-"))
+//@     invariant forall i int :: 0 <= i < idx() && argLabelled(f, f.Paths[i]) ==> f.inputs[i].label == f.Paths[i][:strings.Index(f.Paths[i], "=")]
+//@     invariant forall i int :: 0 <= i < idx() && !argLabelled(f, f.Paths[i]) ==> f.inputs[i].label == f.Paths[i]
+//@     invariant forall s string :: {occ(f.Paths, f.AllowLabels, s, idx())} mapCount(pathCount, s) == occ(f.Paths, f.AllowLabels, s, idx()) + impliedStdin(f, s) && 0 <= occ(f.Paths, f.AllowLabels, s, idx()) <= idx()
+//@     invariant forall s string :: has(pathCount, s) ==> 0 <= pathCount[s] <= idx() + 1
+//@     decreases len(f.Paths) - idx()
+//@   loop 2:
+//@     invariant 0 <= idx() <= len(f.inputs) && f.Paths === old(f.Paths) && f.AllowLabels == old(f.AllowLabels) && f.AllowStdin == old(f.AllowStdin) && f.inputs != nil && fresh(f.inputs) && pathI != nil && fresh(pathI) && pathCount != nil && fresh(pathCount) && unchanged(f)
+//@     invariant len(f.inputs) == len(f.Paths) + ((f.AllowStdin && len(f.Paths) == 0) ? 1 : 0)
+//@     invariant len(f.Paths) == 0 && f.AllowStdin ==> f.inputs[0].path == "-" && f.inputs[0].label == "-" && f.inputs[0].isStdin && !f.inputs[0].isLabeled
+//@     invariant pathI != pathCount
+//@     invariant forall s string :: mapCount(pathCount, s) == occ(f.Paths, f.AllowLabels, s, len(f.Paths)) + impliedStdin(f, s)
+//@     invariant forall s string :: {occ(f.Paths, f.AllowLabels, s, idx())} mapCount(pathI, s) == (mapCount(pathCount, s) == 1 ? 0 : occ(f.Paths, f.AllowLabels, s, idx()))
+//@     invariant forall s string :: has(pathI, s) ==> 0 <= pathI[s] <= idx()
+//@     invariant forall i int :: idx() <= i < len(f.Paths) && !argLabelled(f, f.Paths[i]) ==> f.inputs[i].label == f.Paths[i]
+//@     invariant forall i int :: 0 <= i < idx() && i < len(f.Paths) && !argLabelled(f, f.Paths[i]) ==> f.inputs[i].label == (occ(f.Paths, f.AllowLabels, f.Paths[i], len(f.Paths)) == 1 ? f.Paths[i] : sprintf("%s#%d", iface(f.Paths[i]), iface(occ(f.Paths, f.AllowLabels, f.Paths[i], i))))
+//@     invariant forall i int :: 0 <= i < len(f.Paths) ==> f.inputs[i].path == argPath(f, f.Paths[i]) && f.inputs[i].isLabeled == argLabelled(f, f.Paths[i]) && (f.inputs[i].isStdin <==> (f.AllowStdin && f.inputs[i].path == "-"))
+//@     invariant forall i int :: 0 <= i < len(f.Paths) && argLabelled(f, f.Paths[i]) ==> f.inputs[i].label == f.Paths[i][:strings.Index(f.Paths[i], "=")]
+//@     decreases len(f.inputs) - idx()
